@@ -47,6 +47,33 @@ def _rots(n, seed):
     )
 
 
+def scribble(x, depth=0):
+    """What a step returned belongs to the client: write into every array of it (in place).  A library that hands out
+    views of its own tables or work buffers is changed by this; one that returns fresh objects is not."""
+    if depth > 4:
+        return
+    if isinstance(x, np.ndarray):
+        if x.flags.writeable and x.dtype.kind in "fiuc" and x.size:
+            try:
+                x[...] = x * 0 + (7 if x.dtype.kind in "iu" else 7.25)
+            except (ValueError, TypeError):
+                pass
+    elif isinstance(x, (list, tuple)):
+        for y in x:
+            scribble(y, depth + 1)
+    elif isinstance(x, dict):
+        for key in list(x):
+            v = x[key]
+            if isinstance(v, (np.ndarray, list, tuple, dict)):
+                scribble(v, depth + 1)
+            elif isinstance(v, bool):
+                x[key] = not v
+            elif isinstance(v, (int, float)):
+                x[key] = v * 3 + 1
+    elif hasattr(x, "_fields"):
+        scribble(tuple(x), depth + 1)
+
+
 def _steps():
     import pydrex
     from pydrex import core, diagnostics, geometry, io, minerals, pathlines, stats, tensors, utils, velocity
@@ -73,56 +100,52 @@ def _steps():
         L = np.array([[0.3, 2.0, 0.0], [0.0, -0.5, 0.4], [1.0, 0.0, 0.2]]) * (1.0 if k % 2 else 1e-14)
         D = (L + L.T) / 2
         scale = np.abs(np.linalg.eigvalsh(D)).max()
-        regime = R.matrix_dislocation if k % 3 else R.frictional_yielding
+        regime = [R.matrix_dislocation, R.frictional_yielding, R.min_viscosity, R.matrix_dislocation, R.max_viscosity, R.matrix_diffusion][k % 6]
         return core.derivatives(regime, ph, fb, n, o, f, D / scale, L / scale, np.zeros((3, 3)), 1.5 + (k % 4) * 0.5, 3.5 if k % 2 else 2.0, 5.0 if k % 3 else 0.0, 125.0 if k % 2 else 10.0, 1.0 if k % 5 else 0.3)
 
     @step("kernel")
     def derivatives(k):
-        kern(k)
+        return [kern(k), kern(k + 1), kern(k + 6)]      # several results held at once
 
     @step("kernel")
     def get_crss(k):
-        core.get_crss(P.olivine, [F.olivine_A, F.olivine_B, F.olivine_C, F.olivine_D, F.olivine_E][k % 5])
-        core.get_crss(P.enstatite, F.enstatite_AB)
+        return [core.get_crss(P.olivine, [F.olivine_A, F.olivine_B, F.olivine_C, F.olivine_D, F.olivine_E][k % 5]), core.get_crss(P.enstatite, F.enstatite_AB)]
 
     @step("tensors")
     def voigt_maps(k):
         C = (C_ol if k % 2 else C_en) * (1.0 + 0.01 * (k % 7))
         t = tensors.voigt_to_elastic_tensor(C)
-        tensors.elastic_tensor_to_voigt(tensors.rotate(t, _rots(1, k)[0]))
         v = tensors.voigt_matrix_to_vector(C)
-        tensors.voigt_vector_to_matrix(v)
-        tensors.voigt_decompose(C)
-        for proj in (tensors.mono_project, tensors.ortho_project, tensors.tetr_project, tensors.hex_project):
-            proj(v)
+        out = [t, tensors.elastic_tensor_to_voigt(tensors.rotate(t, _rots(1, k)[0])), v, tensors.voigt_vector_to_matrix(v), tensors.voigt_decompose(C)]
+        out += [proj(v.copy()) for proj in (tensors.mono_project, tensors.ortho_project, tensors.tetr_project, tensors.hex_project)]
+        return out
 
     @step("tensors")
     def second_order(k):
         m = np.random.default_rng(k).normal(size=(3, 3)) * 10.0 ** ((k % 5) - 2)
-        tensors.polar_decompose(m, left=bool(k % 2))
-        tensors.invariants_second_order(m)
-        tensors.upper_tri_to_symmetric(m.copy())
+        flag = [True, False, np.True_, np.False_][k % 4]
+        return [tensors.polar_decompose(m.copy(), left=flag), tensors.invariants_second_order(m.copy()), tensors.upper_tri_to_symmetric(m.copy())]
 
     @step("diag")
     def elasticity(k):
         C = tensors.elastic_tensor_to_voigt(tensors.rotate(tensors.voigt_to_elastic_tensor(C_ol if k % 2 else C_en), _rots(1, 7 * k + 1)[0]))
-        diagnostics.elasticity_components(np.stack([C] * (1 + k % 3)))
+        return diagnostics.elasticity_components(np.stack([C] * (1 + k % 3)))
 
     @step("diag")
     def texture_diagnostics(k):
         o = _rots([5, 50, 2, 300][k % 4], 31 * k)
+        out = []
         for ax in "abc":
-            diagnostics.bingham_average(o, axis=ax)
-            diagnostics.symmetry_pgr(o, axis=ax)
-        diagnostics.coaxial_index(o)
-        diagnostics.finite_strain(np.eye(3) + np.random.default_rng(k).normal(size=(3, 3)) * 0.2)
-        diagnostics.smallest_angle(np.array([1.0, 0.2, 0.0]), np.array([0.0, 1.0, 0.5]))
+            out += [diagnostics.bingham_average(o, axis=ax), diagnostics.symmetry_pgr(o, axis=ax)]
+        out += [diagnostics.coaxial_index(o), diagnostics.finite_strain(np.eye(3) + np.random.default_rng(k).normal(size=(3, 3)) * 0.2)]
+        out.append(diagnostics.smallest_angle(np.array([1.0, 0.2, 0.0]), np.array([0.0, 1.0, 0.5])))
+        return out
 
     @step("stats")
     def m_index(k):
         o = _rots([12, 40, 3][k % 3], 17 * k + 3)
         systems = [geometry.LatticeSystem.orthorhombic, geometry.LatticeSystem.triclinic, geometry.LatticeSystem.hexagonal, geometry.LatticeSystem.monoclinic]
-        diagnostics.misorientation_index(o, systems[k % len(systems)])
+        return [diagnostics.misorientation_index(o, systems[k % len(systems)]), stats.misorientations_random(0, 120, geometry.LatticeSystem.orthorhombic)]
 
     @step("stats")
     def resample_and_density(k):
@@ -130,22 +153,28 @@ def _steps():
         o = _rots(n, k)
         f = np.random.default_rng(k).random(n)
         f /= f.sum()
-        stats.resample_orientations(np.stack([o, o[::-1]]), np.stack([f, f[::-1]]), seed=k, n_samples=[None, 5, 100][k % 3])
+        out = [stats.resample_orientations(np.stack([o, o[::-1]]), np.stack([f, f[::-1]]), seed=k, n_samples=[None, 5, 100][k % 3])]
         x, y, z = geometry.poles(o, ref_axes=["xz", "yx", "zy"][k % 3], hkl=[[1, 0, 0], [0, 1, 0], [0, 0, 1]][k % 3])
         kernels = list(stats.SPHERICAL_COUNTING_KERNELS)
-        stats.point_density(x, y, z, gridsteps=[21, 11, 31][k % 3], kernel=kernels[k % len(kernels)], axial=bool(k % 2))
-        stats.misorientations_random(0, 120, geometry.LatticeSystem.orthorhombic)
+        if k % 4 == 3:
+            out.append(stats.point_density(x.copy(), y.copy(), z.copy(), kernel=kernels[k % len(kernels)]))        # the documented default grid
+        else:
+            out.append(stats.point_density(x.copy(), y.copy(), z.copy(), gridsteps=[21, 11, 31, 51][k % 4], kernel=kernels[k % len(kernels)], axial=bool(k % 2)))
+        out.append((x, y, z))
+        return out
 
     @step("geom")
     def geometry_maps(k):
         rng = np.random.default_rng(k)
         v = rng.normal(size=(3, 9))
-        geometry.to_cartesian(*geometry.to_spherical(*v))
         u = v / np.linalg.norm(v, axis=0)
-        geometry.lambert_equal_area(*u)
-        geometry.shirley_concentric_squaredisk(rng.uniform(-1, 1, 9), rng.uniform(-1, 1, 9))
-        geometry.to_indices2d("xyz"[k % 3], "yzx"[k % 3])
-        geometry.symmetry_operations(list(geometry.LatticeSystem)[k % len(list(geometry.LatticeSystem))])
+        return [
+            geometry.to_cartesian(*geometry.to_spherical(*v.copy())),
+            geometry.lambert_equal_area(*u.copy()),
+            geometry.shirley_concentric_squaredisk(rng.uniform(-1, 1, 9), rng.uniform(-1, 1, 9)),
+            geometry.to_indices2d("xyz"[k % 3], "yzx"[k % 3]),
+            geometry.symmetry_operations(list(geometry.LatticeSystem)[k % len(list(geometry.LatticeSystem))]),
+        ]
 
     @step("flows")
     def flows(k):
@@ -154,24 +183,23 @@ def _steps():
         f2, g2 = velocity.cell_2d(ax[0], ax[1], 1.5, edge_length=2 + (k % 2))
         f3, g3 = velocity.corner_2d(ax[0], ax[1], 1.0)
         x = np.array([0.3, -0.2, 0.4])
-        for f, g in ((f1, g1), (f2, g2)):
-            f(0.0, x), g(0.0, x)
         x3 = -np.abs(x) - 0.1
-        f3(0.0, x3), g3(0.0, x3)
-        utils.strain_increment(0.7, g1(0.0, x))
-        utils.angle_fse_simpleshear(0.5 + k % 3)
+        out = [f1(0.0, x.copy()), g1(0.0, x.copy()), f2(0.0, x.copy()), g2(0.0, x.copy()), f3(0.0, x3.copy()), g3(0.0, x3.copy())]
+        out += [utils.strain_increment(0.7, g1(0.0, x)), utils.angle_fse_simpleshear(0.5 + k % 3)]
+        return out
 
     @step("flows")
     def pathline(k):
         ax = [("X", "Z"), ("Y", "X"), ("Z", "Y")][k % 3]
         f, g = velocity.simple_shear_2d(ax[0], ax[1], 1.0)
-        pathlines.get_pathline(np.array([0.1 * (k % 5), 0.2, -0.1 * (k % 3)]), f, g, np.array([-2.0, -2.0, -2.0]), np.array([2.0, 2.0, 2.0]), max_strain=0.5 + 0.25 * (k % 3), regular_steps=[None, 5][k % 2])
+        t, x = pathlines.get_pathline(np.array([0.1 * (k % 5), 0.2, -0.1 * (k % 3)]), f, g, np.array([-2.0, -2.0, -2.0]), np.array([2.0, 2.0, 2.0]), max_strain=0.5 + 0.25 * (k % 3), regular_steps=[None, 5][k % 2])
+        return [t, x(t[0]), x(t[-1])]
 
     @step("mineral")
-    def mineral_life(k):
+    def mineral_life(k, n=None):
         combos = [(P.olivine, F.olivine_A), (P.enstatite, F.enstatite_AB), (P.olivine, F.olivine_D)]
         ph, fb = combos[k % 3]
-        m = minerals.Mineral(ph, fb, R.matrix_dislocation, n_grains=[4, 9, 33][k % 3], seed=1000 + k)
+        m = minerals.Mineral(ph, fb, R.matrix_dislocation, n_grains=n or [4, 9, 33][k % 3], seed=1000 + k)
         ax = [("X", "Z"), ("Y", "X"), ("Z", "Y")][k % 3]
         f, g = velocity.simple_shear_2d(ax[0], ax[1], 1.0)
         par = dict(pydrex.DefaultParams().as_dict())
@@ -179,12 +207,16 @@ def _steps():
         par["number_of_grains"] = m.n_grains
         par["phase_assemblage"], par["phase_fractions"] = [ph], [1.0]
         t1 = 0.15 + 0.05 * (k % 3)
-        m.update_orientations(par, np.eye(3), g, pathline=(0.0, t1, lambda t: np.zeros(3)))
+        Fret = m.update_orientations(par, np.eye(3), g, pathline=(0.0, t1, lambda t: np.zeros(3)))
+        if n is not None:
+            return [Fret, par]
         with tempfile.TemporaryDirectory(prefix="chatter-") as d:
             path = os.path.join(d, "c.npz")
-            m.save(path, postfix=[None, "q", "olivine"][k % 3])
-            m2 = minerals.Mineral.from_file(path, postfix=[None, "q", "olivine"][k % 3])
-            m2.load(path, postfix=[None, "q", "olivine"][k % 3])
+            pf = [None, "q", "olivine"][k % 3]
+            m.save(path, postfix=pf)
+            m2 = minerals.Mineral.from_file(path, postfix=pf)
+            m2.load(path, postfix=pf)
+        return [Fret, par, m.orientations, m.fractions, m2.orientations, m2.fractions]
 
     @step("mineral")
     def voigt_average(k):
@@ -192,49 +224,103 @@ def _steps():
         m2 = minerals.Mineral(P.enstatite, F.enstatite_AB, R.matrix_dislocation, n_grains=6, seed=k + 1)
         w = [0.7, 0.25, 1.0][k % 3]
         if k % 2:
-            minerals.voigt_averages([m1, m2], [P.olivine, P.enstatite], [w, 1 - w])
+            out = minerals.voigt_averages([m1, m2], [P.olivine, P.enstatite], [w, 1 - w])
         else:
-            minerals.voigt_averages([m2, m1], [P.enstatite, P.olivine], [1 - w, w])
-        minerals.peridotite_solidus(2.0 + k % 3)
+            out = minerals.voigt_averages([m2, m1], [P.enstatite, P.olivine], [1 - w, w])
+        return [out, minerals.peridotite_solidus(2.0 + k % 3), m1.orientations, m2.fractions]
 
     @step("io")
     def scsv_files(k):
-        io.parse_scsv_schema("d,m-:colA(s)colB(s:N/A:...)colC()colD(i:999999)colE(f:NaN:%)")
+        out = [io.parse_scsv_schema("d,m-:colA(s)colB(s:N/A:...)colC()colD(i:999999)colE(f:NaN:%)")]
         with tempfile.TemporaryDirectory(prefix="chatter-") as d:
             path = os.path.join(d, "c.scsv")
             schema = {"delimiter": [",", ";", "|"][k % 3], "missing": "-", "fields": [{"name": "a", "type": "integer", "fill": 999}, {"name": "b", "type": "float", "fill": "NaN"}, {"name": "c", "type": "string", "fill": "n/a"}]}
             io.save_scsv(path, schema, [[1, 999, 3 + k], [0.5, float("nan"), -1e-300], ["u", "n/a", "w w"]])
-            io.read_scsv(path)
-        io.stringify("a b/c%d" % k)
-        io.resolve_path("x/../y%d" % k)
+            out.append(io.read_scsv(path))
+            cfg = os.path.join(d, "c.toml")
+            # a configuration that leaves whole optional tables to their documented defaults
+            open(cfg, "w").write('name = "chatter"\n[input]\ntimestep = 0.5\nlocations_final = "l.scsv"\nlocations_initial = "i.scsv"\nvelocity_gradient = ["simple_shear_2d", "Y", "X", 5e-6]\n' + ["", "strain_final = 2.5\n"][k % 2])
+            open(os.path.join(d, "l.scsv"), "w").write("---\nschema:\n  delimiter: ','\n  missing: '-'\n  fields:\n    - name: X\n      type: float\n      fill: NaN\n    - name: Z\n      type: float\n      fill: NaN\n---\nX,Z\n1.0,-1.0\n2.0,-2.0\n")
+            open(os.path.join(d, "i.scsv"), "w").write("---\nschema:\n  delimiter: ','\n  missing: '-'\n  fields:\n    - name: X\n      type: float\n      fill: NaN\n    - name: Y\n      type: float\n      fill: NaN\n    - name: Z\n      type: float\n      fill: NaN\n---\nX,Y,Z\n0.0,0.0,0.0\n0.5,0.5,0.5\n")
+            try:
+                out.append(io.parse_config(cfg))
+            except Exception:  # noqa: BLE001  (which configurations are accepted is C19's business)
+                pass
+        out += [io.stringify("a b/c%d" % k), io.resolve_path("x/../y%d" % k)]
+        return out
 
     @step("params")
     def params(k):
         from pydrex import mock
 
-        pydrex.DefaultParams().as_dict()
-        hash(pydrex.DefaultParams())
+        out = [pydrex.DefaultParams().as_dict(), hash(pydrex.DefaultParams())]
         for name in dir(mock):
             if name.startswith("PARAMS_"):
-                dict(getattr(mock, name))
+                out.append(dict(getattr(mock, name)))
+        return out
 
     @step("utils")
     def array_helpers(k):
         a = np.arange(12.0).reshape(3, 4) + k
-        utils.remove_dim(a[:3, :3], k % 3)
-        utils.add_dim(np.arange(2.0) + k, k % 3, val=k)
-        utils.diff_like(np.cumsum(np.arange(5.0) + k))
-        utils.remove_nans(np.array([1.0, np.nan, k]))
-        utils.pad_with([[1, 2], [k]])
-        utils.extract_vars(np.arange(9 + 3 * 10.0), 3)
-        utils.default_ncpus()
-        utils.quat_product(np.array([1.0, 0.0, 0.5, 0.0]), np.array([0.2, 0.1 * k, 0.0, 1.0]))
-        utils.lag_2d_corner_flow(0.3 + 0.1 * (k % 4))
+        return [
+            utils.remove_dim(a[:3, :3].copy(), k % 3),
+            utils.add_dim(np.arange(2.0) + k, k % 3, val=k),
+            utils.diff_like(np.cumsum(np.arange(5.0) + k)),
+            utils.remove_nans(np.array([1.0, np.nan, k])),
+            utils.pad_with([[1, 2], [k]]),
+            utils.extract_vars(np.arange(9 + 3 * 10.0), 3),
+            utils.default_ncpus(),
+            utils.quat_product(np.array([1.0, 0.0, 0.5, 0.0]), np.array([0.2, 0.1 * k, 0.0, 1.0])),
+            utils.lag_2d_corner_flow(0.3 + 0.1 * (k % 4)),
+        ]
 
     return S
 
 
 _CACHE = {}
+
+
+class NestedClient:
+    """A client callable that, at its FIRST evaluation after `arm()`, makes a library call of its own before it answers.
+
+    `update_orientations` evaluates the client's callables a few times before it starts its ODE solver; at those points the
+    library has handed control to the client and nothing of it is running (the solver itself is not re-entrant, so a
+    client cannot call back into an update from inside the integration - the unchanged library refuses that).  A client
+    that advances its second phase from the first callback of an interval is such a client.  To every specification the
+    nested call is a step that leaves the variables of the outer call alone."""
+
+    def __init__(self, fn, action):
+        self.fn, self.action = fn, action
+        self.count, self.ran, self.raised = 0, 0, 0
+
+    def arm(self):
+        self.count = 0
+
+    def __call__(self, *a, **kw):
+        self.count += 1
+        if self.count == 1:
+            try:
+                self.action()
+                self.ran += 1
+            except KeyboardInterrupt:
+                raise
+            except BaseException:  # noqa: BLE001  the nested call's own fate is not judged here
+                self.raised += 1
+        return self.fn(*a, **kw)
+
+
+def nested_mineral_update(n_grains, k=0):
+    """The action of a NestedClient: one update of ANOTHER mineral with the same grain count."""
+    if "steps" not in _CACHE:
+        _CACHE["steps"] = _steps()
+    fn = next(f for g, name, f in _CACHE["steps"] if name == "mineral_life")
+    state = {"k": k}
+
+    def act():
+        state["k"] += 1
+        scribble(fn(state["k"], n=n_grains))
+
+    return act
 
 
 def tick(pid):
@@ -262,7 +348,8 @@ def tick(pid):
     try:
         with warnings.catch_warnings():
             warnings.simplefilter("ignore")
-            fn(k)
+            # what a step returns belongs to the client, who writes into it
+            scribble(fn(k))
         _STATE["ok"] += 1
         _STATE["by_step"][name] = _STATE["by_step"].get(name, 0) + 1
     except KeyboardInterrupt:
